@@ -431,10 +431,12 @@ int run_cases(F handler) {
       std::string out = handler(cs);
       std::cout << "(" << id << " ok " << out << ")" << std::endl;
     } catch (std::invalid_argument& e) {
+      if (getenv("DRV_VERBOSE")) std::cerr << id << ": " << e.what() << std::endl;
       std::cout << "(" << id << " err value)" << std::endl;
     } catch (std::logic_error& e) {   // driver-side misuse (bad case syntax)
       std::cout << "(" << id << " bad " << "(" << e.what() << "))" << std::endl;
     } catch (std::runtime_error& e) {
+      if (getenv("DRV_VERBOSE")) std::cerr << id << ": " << e.what() << std::endl;
       std::cout << "(" << id << " err runtime)" << std::endl;
     } catch (std::exception& e) {
       std::cout << "(" << id << " err other)" << std::endl;
